@@ -20,6 +20,10 @@ def _n1(an, rep):
     return N.may_panic(an, rep, "decode", "N1")
 
 
+def _n2_matrix(an, rep):
+    return N.may_panic(an, rep, "encode", "N2", min_roots=40, min_reach=50)
+
+
 def _n2(an, rep):
     return N.may_panic(an, rep, "encode", "N2")
 
@@ -64,6 +68,7 @@ PROPS = {
         "level": "other",
         "rules": [T.read_field, T.read_optional_field, T.header_reader, T.header_writer, T.step_codes, T.field_position,
                   T.metadata_tables, T.record_writer, R.chunks_skipped, R.pairing, D.validate],
+        "thorough": [TH.generated_corpus],
         "explanation": "The reader's and writer's decision procedures are compared, path by path, with the documented outcome "
                        "table: read_field / read_optional_field rows incl. the two specific errors (T1, T2), header "
                        "interpretation (T4) and construction (T5), step and position codes (T7, T8), metadata tables with the "
@@ -110,6 +115,7 @@ PROPS = {
         "level": "other",
         "rules": [R.coordinates, R.pairing, R.chunks_skipped, G.pairs_unify, G.sequences, E.decode_errors, T.read_field,
                   T.header_reader, T.step_codes, T.field_position, T.sequence_reader, T.ref_protocol, T.dedup_strings],
+        "thorough": [TH.feature_matrix(G.pairs_unify, G.sequences, E.decode_errors, name="feature_matrix_framing")],
         "explanation": "Framing is honoured structurally: a chunk window bounds the reads made inside it (R3), each field read "
                        "lies inside the window of its own generation and the advanced cursor is written back (R1), chunk windows "
                        "come from skipped sizes (R5), every length / count / tag read governs the bytes that follow (G2), unknown "
@@ -123,6 +129,7 @@ PROPS = {
         "level": "other",
         "rules": [G.pairs_unify, G.sequences, R.no_peeking, R.chunks_skipped, R.pairing, T.constructors, T.sequence_reader,
                   T.sequence_writer, T.header_reader, G.compressed_frame, D.validate],
+        "thorough": [TH.generated_corpus, TH.feature_matrix(G.pairs_unify, G.sequences, R.no_peeking, name="feature_matrix_delimiting")],
         "explanation": "Self-delimitation by structure: each reader path consumes exactly the primitives its writer path emitted "
                        "(G2, by induction over nested codecs), sequence readers consume the terminator / all counted items "
                        "(G4, G9, T12, T13), no decoder looks at the remaining length (R4), an evolved record moves the parent "
@@ -135,6 +142,7 @@ PROPS = {
         "level": "other",
         "rules": [P.sources_agree, R.coordinates, R.chunks_skipped, E.decode_errors, T.sequence_reader, T.header_reader,
                   G.pairs_unify, G.sequences],
+        "thorough": [TH.feature_matrix(E.decode_errors, G.pairs_unify, G.sequences, name="feature_matrix_truncation")],
         "explanation": "By reduction: the decoder reads every byte of the encoding (C07's clauses: G2, G4/G9, R5), every read or "
                        "skip past the end is InputEndedUnexpectedly through one overflow-safe guard (P4) with region ends inside "
                        "the input (R3), no error is swallowed or defaulted (E1), a failed count read or a failed item read in "
@@ -147,6 +155,7 @@ PROPS = {
         "level": "other",
         "rules": [T.dedup_strings, T.state_tables, T.step_codes, S.constructors_and_writers, B.varints, E.error_sites,
                   O.header_strings, D.validate],
+        "thorough": [TH.generated_corpus, TH.feature_matrix(O.header_strings, E.error_sites, name="feature_matrix_strings")],
         "explanation": "Writer/reader protocol of the string table (T9: the first occurrence is exactly <String>::serialize, a "
                        "repeat is VarI32(-id), unknown ids are InvalidStringId, the reader registers every first occurrence "
                        "exactly once), one numbering function starting at 1 used by both sides and no other writer of the "
@@ -181,6 +190,7 @@ PROPS = {
     "C12": {
         "level": "other",
         "rules": [G.sequences, T.sequence_writer, T.sequence_reader, G.pairs_unify],
+        "thorough": [TH.feature_matrix(G.sequences, G.pairs_unify, name="feature_matrix_sequences")],
         "explanation": "All SEQ writers have one grammar (serialize_iterator or the same layout hand-written) and all byte "
                        "containers one (G4); the writer's two size forms (T13) are both accepted by the one shared reader "
                        "(T12); every reader consumes the whole element stream and arrays check the count (G9, G8); maps are "
@@ -226,6 +236,7 @@ PROPS = {
         "level": "other",
         "rules": [G.compressed_frame, N.alloc_taint, N.narrowing_casts, P.sources_agree, E.decode_errors, E.encode_errors,
                   E.error_sites, ST.make(["N4", "E1"])],
+        "thorough": [TH.feature_matrix(G.compressed_frame, N.alloc_taint, E.decode_errors, E.encode_errors, name="feature_matrix_compressed")],
         "explanation": "Frame structure on both sides (G10: VarU32 len(input), VarU32 len(deflated), deflated bytes; the reader "
                        "consumes exactly the second length on every successful path; everything is deflated / inflated with "
                        "read_to_end), true lengths through checked conversions (N6), no reservation from the untrusted length "
@@ -238,6 +249,7 @@ PROPS = {
         "level": "other",
         "rules": [_n2, N.narrowing_casts, E.encode_errors, E.error_sites, G.char_codec, B.varints, S.fresh_context,
                   T.header_writer, D.validate],
+        "thorough": [TH.generated_corpus, TH.feature_matrix(_n2_matrix, N.narrowing_casts, E.encode_errors, G.char_codec, name="feature_matrix_encode")],
         "explanation": "Every may-panic site reachable from the encode entry points is discharged (N2; D6 certifies the new_v0 "
                        "assertion, R2 the buffer unwraps), lengths are narrowed with try_into()? -> LengthTooLarge (N6), errors "
                        "propagate (E2) and are constructed where documented: UnsupportedCharacter exactly outside the 16-bit "
@@ -250,6 +262,7 @@ PROPS = {
         "level": "proof",
         "rules": [S.statics_inventory, S.lazy_initialisers, S.constructors_and_writers, S.no_hash_iteration, S.fresh_context,
                   W.auto_traits, TH.derived_statics],
+        "thorough": [TH.feature_matrix(S.statics_inventory, S.lazy_initialisers, S.no_hash_iteration, name="feature_matrix_statics")],
         "explanation": "Non-interference argument: the only process-wide state is Lazy<AdtMetadata> (S1, also for every derive "
                        "expansion in the corpus) whose initialisers are closed functions of constants (S2); per-call state is "
                        "created per context and written only by two functions (S3); hash seeds cannot reach the output (S4); "
@@ -261,6 +274,7 @@ PROPS = {
         "level": "other",
         "rules": [U.inventory, U.transmutes, U.uninit_apis, U.raw_provenance, W.lifetime_witnesses, W.auto_traits,
                   G.sequences, ST.make(["U2", "U3"])],
+        "thorough": [TH.feature_matrix(U.inventory, U.transmutes, U.uninit_apis, U.raw_provenance, name="feature_matrix_unsafe")],
         "explanation": "Closed inventory of unsafe operations (U1) with a typed obligation at each transmute (U2), no "
                        "uninitialised-memory API (U3), a provenance rule for raw pointers that are handed back as references "
                        "(U4), compiler verdicts on a catalogue of lifetime-escape witnesses with compiling twins (U5/U6), "
